@@ -45,6 +45,9 @@ pub fn client_addr(i: usize) -> SocketAddr {
         1 => "10.9.0.2:4002".parse().unwrap(),
         2 => "[fd00::9:1]:4003".parse().unwrap(),
         3 => "10.9.0.1:5001".parse().unwrap(),
+        // what an IPv4 peer looks like on a dual-stack socket, and a scoped link-local peer
+        4 => "[::ffff:10.9.0.7]:4004".parse().unwrap(),
+        5 => "[fe80::9:5%3]:4005".parse().unwrap(),
         n => format!("10.9.{}.{}:{}", 1 + n / 250, 1 + n % 250, 10_000 + n).parse().unwrap(),
     }
 }
@@ -190,7 +193,7 @@ pub struct Built {
 }
 
 pub fn n_clients() -> usize {
-    4
+    6
 }
 
 /// Node + contacts + clients; store preparation when requested. Extra clients may be added by
